@@ -1179,4 +1179,130 @@ theorem susp_of_pend {p : Prog} {w : W} {pre fut : List (SName × Stage)} {n : S
     h.async, hpos, hsu, by simpa [hg.stages] using h.sd, by simpa [hg.stages] using h.never, book_frame hg h.book,
     by simpa [hg.fails, hg.lastExc] using h.failsOk, h.unrec⟩
 
+/-! ### the end of the chain and the cleanups -/
+
+theorem finish_fields (c : Chain) :
+    c.finish.fails = (c.fails || c.lastExc.isSome || c.forced) ∧ c.finish.forced = c.forced ∧ c.finish.stages = c.stages ∧
+    c.finish.logged = c.logged ∧ c.finish.dropped = c.dropped ∧ c.finish.observers = c.observers ∧ c.finish.pos = .done ∧
+    ((c.excs ≠ [] ↔ c.fails = true) → (c.finish.excs ≠ [] ↔ c.finish.fails = true)) := by
+  unfold Chain.finish
+  cases h1 : c.lastExc <;> cases h2 : c.forced <;> simp [h1, h2]
+
+theorem finishChain_fin {p : Prog} {w : W} {pre : List (SName × Stage)} (h : Run p w pre []) : Fin p (finishChain w) := by
+  obtain ⟨f1, f2, f3, f4, f5, f6, f7, f8⟩ := finish_fields w.u
+  have hu : (finishChain w).u = w.u.finish := finishChain_u w
+  have hcalls : sdOf (finishChain w).calls = [] := by
+    simp only [finishChain, deliver_calls]
+    split
+    · rw [sdOf_filter]; exact h.noSD
+    · exact h.noSD
+  have hfails : w.u.finish.fails = true ↔ (∃ x ∈ pre, behOk x.2.beh = false) ∨ w.u.finish.forced = true := by
+    rw [f1, f2, ← h.failsOk]
+    simp only [Bool.or_eq_true]
+  refine ⟨pre, by simpa using h.path, by rw [hu, f3]; exact h.len, by rw [hu, f3]; exact h.seq, hcalls, ?_, by rw [hu]; exact f7,
+    by rw [hu]; exact hfails, ?_, ?_⟩
+  · rw [hu]
+    exact ⟨by rw [f2]; exact h.book.forced, by rw [f4]; exact h.book.logged, by rw [f5]; exact h.book.dropped,
+      f8 h.book.excs, by rw [f3, f6]; exact h.book.obs⟩
+  · intro b hb
+    by_cases hp : w.sp.tcall = .pending
+    · have hs : (finishChain w).sp.success = some (if w.u.finish.fails then 0 else 1) := by
+        simp [finishChain, deliver, hp]
+        rfl
+      rw [hs] at hb
+      injection hb with hb
+      refine ⟨by rw [hu, ← hb], ?_⟩
+      rw [hu, f3]
+      rcases h.tA hp with h1 | h1
+      · exact Or.inl h1
+      · exact Or.inr ⟨w.now, h.over, h1.1, h1.2⟩
+    · have : (finishChain w).sp.success = none := by
+        simp only [finishChain]
+        rw [deliver_of_not_pending _ _ (by simpa using hp)]
+        simpa using h.unrec
+      rw [this] at hb; cases hb
+  · intro hn
+    by_cases hp : w.sp.tcall = .pending
+    · have hs : (finishChain w).sp.success = some (if w.u.finish.fails then 0 else 1) := by
+        simp [finishChain, deliver, hp]
+        rfl
+      rw [hs] at hn; cases hn
+    · obtain ⟨h1, h2⟩ := h.tB hp
+      rw [hu, f3]
+      rintro (h3 | ⟨over, h3, h4, _⟩)
+      · rw [h1] at h3; cases h3
+      · rw [h.over] at h3
+        injection h3 with h3
+        omega
+
+theorem launch_stack (n : SName) (st : Stage) (w : W) : (launch n st w).u.stack = w.u.stack := (launch_frame n st w).2.1
+
+theorem runCleanups_cinv {p : Prog} : ∀ (stack : List (Nat × Stage)) (w : W) (pre : List (SName × Stage)),
+    Run p w pre (cleanupPath stack) → CInv p (runCleanups stack w)
+  | [], w, pre, h => by
+      simp only [runCleanups]
+      exact Or.inr (finishChain_fin (run_frame (frame_stack []) h))
+  | (i, c) :: rest, w, pre, h => by
+      have h' : Run p (updU (fun u => { u with stack := rest }) w) pre ((SName.cleanup i, c) :: cleanupPath rest) :=
+        run_frame (frame_stack rest) h
+      simp only [runCleanups]
+      cases hs : statusOf c.beh with
+      | completed r =>
+        simp only []
+        exact runCleanups_cinv rest _ _ (launch_completed h' r hs _ (noteOK_cleanup r))
+      | pending =>
+        simp only []
+        have hp := launch_pending h' hs
+        refine Or.inl (susp_of_pend hp _ (frame_pos .cleanup) rfl ?_ (by intro h; cases h))
+        simp [future, launch_stack]
+
+theorem afterRun_cinv {p : Prog} {w : W} {pre : List (SName × Stage)} (h : Run p w pre (cleanupPath w.u.stack)) :
+    CInv p (runCleanups w.u.stack w) := runCleanups_cinv _ _ _ h
+
+theorem startTearDown_cinv {p : Prog} {w : W} {pre : List (SName × Stage)}
+    (h : Run p w pre ((SName.tearDown, p.tearDown.stage) :: cleanupPath (Chain.register p.tearDown.cleanups w.u).stack)) :
+    CInv p (startTearDown p w) := by
+  have h' := run_frame (frame_register p.tearDown.cleanups) h
+  simp only [startTearDown]
+  cases hs : statusOf p.tearDown.stage.beh with
+  | completed r =>
+    simp only [afterTearDown]
+    have hr := launch_completed h' r hs _ (noteOK_main r)
+    apply afterRun_cinv
+    simpa [noteMain_stack, launch_stack] using hr
+  | pending =>
+    simp only []
+    have hp := launch_pending h' hs
+    refine Or.inl (susp_of_pend hp _ (frame_pos .tearDown) rfl ?_ (by intro h; cases h))
+    simp [future, launch_stack]
+
+theorem startBody_cinv {p : Prog} {w : W} {pre : List (SName × Stage)}
+    (h : Run p w pre ((SName.body, p.body.stage) :: (SName.tearDown, p.tearDown.stage) ::
+      cleanupPath (Chain.register p.tearDown.cleanups (Chain.register p.body.cleanups w.u)).stack)) :
+    CInv p (startBody p w) := by
+  have h' := run_frame (frame_register p.body.cleanups) h
+  have hfr := launch_frame .body p.body.stage (updU (Chain.register p.body.cleanups) w)
+  simp only [startBody]
+  cases hs : statusOf p.body.stage.beh with
+  | completed r =>
+    simp only [afterBody]
+    have hr := launch_completed h' r hs _ (noteOK_main r)
+    apply startTearDown_cinv
+    have hc := register_congr p.tearDown.cleanups
+      (updU (Chain.noteMain r) (launch .body p.body.stage (updU (Chain.register p.body.cleanups) w))).u
+      (Chain.register p.body.cleanups w.u)
+      (by simp [noteMain_stack, hfr.2.1])
+      (by cases r <;> simp [Chain.noteMain, Chain.caught, hfr.2.2])
+    rw [hc.1]
+    exact hr
+  | pending =>
+    simp only []
+    have hp := launch_pending h' hs
+    refine Or.inl (susp_of_pend hp _ (frame_pos .body) rfl ?_ (by intro h; cases h))
+    have hc := register_congr p.tearDown.cleanups
+      ({ (launch .body p.body.stage (updU (Chain.register p.body.cleanups) w)).u with pos := .body })
+      (Chain.register p.body.cleanups w.u) (by simp [hfr.2.1]) (by simp [hfr.2.2])
+    simp only [future]
+    rw [hc.1]
+
 end TTV.Props.C14
